@@ -294,6 +294,14 @@ pub fn confirm<M: Model>(m: &M, hist: &[M::Ev], prop: &str) -> Result<Option<Vio
   let a = run_guarded(m, hist, prop)?;
   let b = run_guarded(m, hist, prop)?;
   if a.digest != b.digest || a.violation.as_ref().map(|v| &v.key) != b.violation.as_ref().map(|v| &v.key) {
+    // Both runs violate, only not in the same way: the harness is deterministic (clock, network, scheduler are
+    // seams), so what differs is the implementation itself - typically which of several equally wrong objects
+    // a HashMap iteration reaches first.  The history fails every time; that is a verdict.
+    if let (Some(va), Some(vb)) = (&a.violation, &b.violation) {
+      let mut v = va.clone();
+      v.msg = format!("{} [a second run of the same history fails differently - {}: {} - the implementation's behaviour on it depends on something the history does not fix, e.g. hash-map iteration order]", v.msg, vb.key, vb.msg.chars().take(200).collect::<String>());
+      return Ok(Some(v));
+    }
     return Err(format!(
       "MACHINERY nondeterministic replay: {:?} vs {:?}",
       a.violation.map(|v| v.msg),
